@@ -36,6 +36,7 @@ type c04Write struct {
 	failed  bool
 	phase   int  // 0 handshake, 1 query, 2 follow-up
 	afterC  bool // issued after the caller's context was cancelled (C10)
+	cancelW bool // the call tried to write the one-byte Cancel packet
 }
 
 // what a gate arrival is told
@@ -419,7 +420,7 @@ func (c *c04Conn) record(p []byte, n int, err error, phase int, afterC bool) (in
 			n = 0
 		}
 	}
-	w := c04Write{data: p[:n], phase: phase, afterC: afterC}
+	w := c04Write{data: p[:n], phase: phase, afterC: afterC, cancelW: c04IsCancel(p)}
 	if err != nil {
 		w.failed = true
 		w.partial = true
